@@ -108,7 +108,7 @@ def run(rep, tier, seed):
                 'non-trivial = type depth>=1 or tagged')
     rep.assumptions = ['text codecs trusted']
     pool = []
-    for case in engine.gen_cases(rng, n, max_depth=2):
+    for case in engine.gen_cases(rng, n, max_depth=2, allow_any=True):
         if not engine.representable(case):
             continue
         rep.case(case.canon, nontrivial=gen.nontrivial(case.t),
